@@ -364,6 +364,12 @@ func (p *Process) isPendingInstance() bool {
 	return !p.started && !p.done
 }
 
+func (p *Process) isDone() bool {
+	p.Lock()
+	defer p.Unlock()
+	return p.done
+}
+
 func (p *Process) waitForCompletion() int {
 	p.Lock()
 	defer p.Unlock()
